@@ -844,7 +844,7 @@ func trivialGetterField(g *ssa.Function) *types.Var {
 			return nil
 		}
 	}
-	r := ret.Results[0]
+	r := returnedValues(ret)[0]
 	if ct, ok := r.(*ssa.ChangeType); ok { // chan -> <-chan
 		r = ct.X
 	}
